@@ -1,6 +1,9 @@
 package simrt
 
 import (
+	"fmt"
+	"reflect"
+	"sort"
 	"sync"
 )
 
@@ -123,16 +126,27 @@ type rlocker RWMutex
 func (r *rlocker) Lock()   { (*RWMutex)(r).RLock() }
 func (r *rlocker) Unlock() { (*RWMutex)(r).RUnlock() }
 
+// heldLocks counts lock grants that have not been released yet (under the
+// scheduler). A non-zero value when all goroutines have finished is a leaked lock.
+var heldLocks int
+
+// HeldLocks returns the number of lock acquisitions not yet released.
+//
+//go:norace
+func HeldLocks() int { return heldLocks }
+
 //go:norace
 func mLock(l *lockModel) {
 	waitFor(wWLock, l, nil, siteLock)
 	l.writer = int32(curG) + 1
+	heldLocks++
 }
 
 //go:norace
 func mRLock(l *lockModel) {
 	waitFor(wRLock, l, nil, siteRLock)
 	l.readers++
+	heldLocks++
 }
 
 //go:norace
@@ -143,18 +157,21 @@ func mTry(l *lockModel, excl bool) bool {
 			return false
 		}
 		l.writer = int32(curG) + 1
+		heldLocks++
 		return true
 	}
 	if l.writer != 0 {
 		return false
 	}
 	l.readers++
+	heldLocks++
 	return true
 }
 
 //go:norace
 func mUnlock(l *lockModel) {
 	l.writer = 0
+	heldLocks--
 	Yield(siteUnlock)
 }
 
@@ -163,6 +180,7 @@ func mRUnlock(l *lockModel) {
 	if l.readers > 0 {
 		l.readers--
 	}
+	heldLocks--
 	Yield(siteRUnlock)
 }
 
@@ -422,4 +440,112 @@ func poolStore(p *Pool, x interface{}, e int32) {
 	}
 	p.items[p.n] = &poolItem{x: x, by: int32(curG), edge: e}
 	p.n++
+}
+
+// ---------------------------------------------------------------- sync.Map
+
+// SyncMap has the method set of sync.Map. Storage is a real sync.Map (so the
+// race detector sees what it would see); the simulator adds a scheduling point
+// before every operation and decides the order in which Range visits entries.
+type SyncMap struct {
+	real sync.Map
+}
+
+const siteSyncMap = -11
+
+func (m *SyncMap) yield() {
+	if schedOn {
+		Yield(siteSyncMap)
+	}
+}
+
+func (m *SyncMap) Load(key interface{}) (interface{}, bool) { m.yield(); return m.real.Load(key) }
+func (m *SyncMap) Store(key, value interface{})             { m.yield(); m.real.Store(key, value) }
+func (m *SyncMap) Delete(key interface{})                   { m.yield(); m.real.Delete(key) }
+func (m *SyncMap) LoadOrStore(key, value interface{}) (interface{}, bool) {
+	m.yield()
+	return m.real.LoadOrStore(key, value)
+}
+func (m *SyncMap) LoadAndDelete(key interface{}) (interface{}, bool) {
+	m.yield()
+	return m.real.LoadAndDelete(key)
+}
+func (m *SyncMap) Swap(key, value interface{}) (interface{}, bool) {
+	m.yield()
+	return m.real.Swap(key, value)
+}
+func (m *SyncMap) CompareAndSwap(key, old, new interface{}) bool {
+	m.yield()
+	return m.real.CompareAndSwap(key, old, new)
+}
+func (m *SyncMap) CompareAndDelete(key, old interface{}) bool {
+	m.yield()
+	return m.real.CompareAndDelete(key, old)
+}
+
+// Range visits a snapshot of the entries in an order chosen by the map-order
+// policy of the run (sync.Map.Range promises no order and tolerates concurrent
+// modification, so every order of a snapshot is a legal execution).
+func (m *SyncMap) Range(f func(key, value interface{}) bool) {
+	m.yield()
+	if !Active || mapPolicy == MapNative {
+		m.real.Range(f)
+		return
+	}
+	var keys []interface{}
+	m.real.Range(func(k, v interface{}) bool { keys = append(keys, k); return true })
+	for _, k := range orderKeys(keys, maxMapSites-1) {
+		v, ok := m.real.Load(k)
+		if !ok {
+			continue
+		}
+		if !f(k, v) {
+			return
+		}
+	}
+}
+
+// orderKeys applies the map-order decision of the run to arbitrary keys.
+func orderKeys(keys []interface{}, site int) []interface{} {
+	n := len(keys)
+	if n < 2 {
+		return keys
+	}
+	sort.SliceStable(keys, func(a, b int) bool { return keyText(keys[a]) < keyText(keys[b]) })
+	c := mapChoice(site, n)
+	switch {
+	case c == 0:
+	case c == 1:
+		for i, j := 0, n-1; i < j; i, j = i+1, j-1 {
+			keys[i], keys[j] = keys[j], keys[i]
+		}
+	case c == 2:
+		h := n / 2
+		keys = append(append([]interface{}{}, keys[h:]...), keys[:h]...)
+	default:
+		x := uint64(c)*0x9E3779B97F4A7C15 + 77
+		for i := n - 1; i > 0; i-- {
+			x ^= x >> 12
+			x ^= x << 25
+			x ^= x >> 27
+			j := int((x * 0x2545F4914F6CDD1D) % uint64(i+1))
+			keys[i], keys[j] = keys[j], keys[i]
+		}
+	}
+	noteMapVisit(site, n, c != 0)
+	return keys
+}
+
+// keyText renders a key without calling its methods (see sortPairs).
+func keyText(k interface{}) string {
+	v := reflect.ValueOf(k)
+	switch v.Kind() {
+	case reflect.String:
+		return "s" + v.String()
+	case reflect.Int, reflect.Int8, reflect.Int16, reflect.Int32, reflect.Int64:
+		return fmt.Sprintf("i%020d", v.Int()+(1<<62))
+	case reflect.Uint, reflect.Uint8, reflect.Uint16, reflect.Uint32, reflect.Uint64, reflect.Uintptr:
+		return fmt.Sprintf("u%020d", v.Uint())
+	}
+	return fmt.Sprintf("o%#v", k)
 }
